@@ -359,10 +359,15 @@ def rendezvous(rng, k, tag='rv', with_noise=True):
         T['lib'] = {'kind': 'build', 'deps': []}
         T['svc'] = {'kind': 'service', 'deps': []}
         T['slow'] = {'kind': 'build', 'deps': ['svc']}
+        # a service that is a dependency next to a build that stays blocked: it must be started without waiting for it
+        T['backend'] = {'kind': 'service', 'deps': []}
+        deps = ['p0', 'backend']
+        rng.shuffle(deps)
+        T['e2e'] = {'kind': 'build', 'deps': deps}
     tops = ['p%d' % i for i in order]
     rng.shuffle(tops)
     T['top'] = {'kind': rng.choice(['aggregate', 'build']), 'deps': tops}
-    roots = ['top'] + (['slow'] if with_noise else [])
+    roots = ['top'] + (['slow', 'e2e'] if with_noise else [])
     rng.shuffle(roots)
     d = vf.scratch_dir(tag)
     spec = {t: {'kind': s['kind'], 'deps': s['deps'], 'gated': s['kind'] == 'build'} for t, s in T.items()}
@@ -373,7 +378,7 @@ def rendezvous(rng, k, tag='rv', with_noise=True):
         # lib must finish first for the odd ones; slow stays blocked for the whole scenario (never released before the end)
         def all_in_progress(tr):
             started = {t for kx, t, _ in tr if kx == 'start'}
-            return all(('p%d' % i) in started for i in range(k))
+            return all(('p%d' % i) in started for i in range(k)) and (not with_noise or 'backend' in started)
         t0 = time.time()
         released_lib = False
         ok = False
@@ -392,8 +397,9 @@ def rendezvous(rng, k, tag='rv', with_noise=True):
         if not ok:
             started = sorted({t for kx, t, _ in tr if kx == 'start'})
             V.setdefault('C17', []).append(
-                '%d independent builds never were in progress together while none of them was released and an unrelated build '
-                '(slow) and a service were running; started so far: %s' % (k, started))
+                '%d independent builds (and the service `backend`, a dependency of e2e next to the still-blocked build p0) never '
+                'were in progress together while none of them was released and an unrelated build (slow) and a service were '
+                'running; started so far: %s' % (k, started))
         obs = {'targets': T, 'roots': roots, 'k': k, 'trace': tr, 'all_in_progress': ok, 'wait_s': round(time.time() - t0, 3)}
         return obs, V
     finally:
@@ -519,3 +525,54 @@ def aggregate_pair(rng, T, G, fail=(), tag='ag'):
            'requesting_aggregate': {k: (sorted(v) if isinstance(v, set) else v) for k, v in a.items() if k not in ('V',)},
            'requesting_dependencies': {k: (sorted(v) if isinstance(v, set) else v) for k, v in b.items() if k not in ('V',)}}
     return obs, V
+
+
+def probe_starvation(rng, tag='ps'):
+    """more slow `cmd_stdout` input probes than executor threads, next to an unrelated chain of quick builds: the chain must not
+    wait for the probes (C17: nothing waits for a non-dependency, however long it takes)"""
+    import multiprocessing
+    n = multiprocessing.cpu_count() + 2
+    d = vf.scratch_dir(tag)
+    trace = os.path.join(d, 'trace')
+    open(trace, 'w').close()
+    lines = ['targets:']
+    for i in range(n):
+        lines += ['  probe%d:' % i, '    input:', '      - cmd_stdout: sleep 3; echo v%d' % i, '    build: "true"']
+    prev = None
+    for i in range(3):
+        lines += ['  quick%d:' % i] + (['    dependencies: [%s]' % prev] if prev else []) + \
+                 ['    build: echo "end quick%d $(date +%%s.%%N)" >> %s' % (i, trace)]
+        prev = 'quick%d' % i
+    with open(os.path.join(d, 'zinoma.yml'), 'w') as f:
+        f.write('\n'.join(lines) + '\n')
+    e = dict(os.environ)
+    e.pop('ZINOMA_VERIF', None)
+    import subprocess
+    t0 = time.time()
+    proc = subprocess.Popen([vf.ZINOMA] + ['probe%d' % i for i in range(n)] + ['quick2'], cwd=d, env=e,
+                            stdout=subprocess.DEVNULL, stderr=subprocess.DEVNULL, start_new_session=True)
+    V = {}
+    done_at = None
+    try:
+        while time.time() - t0 < 20:
+            txt = open(trace).read()
+            if 'end quick2' in txt:
+                done_at = time.time() - t0
+                break
+            if proc.poll() is not None:
+                break
+            time.sleep(0.01)
+        if done_at is None or done_at > 2.0:
+            V['C17'] = ['an unrelated chain of three quick builds finished after %s s while %d slow input probes (3 s each) were '
+                        'being evaluated; it normally takes ~0.1 s' % ('%.2f' % done_at if done_at else '>20', n)]
+        return {'probes': n, 'quick_chain_done_s': done_at}, V
+    finally:
+        try:
+            os.killpg(proc.pid, signal.SIGKILL)
+        except (ProcessLookupError, PermissionError):
+            pass
+        try:
+            proc.wait(timeout=5)
+        except Exception:
+            pass
+        vf.sh(['rm', '-rf', d])
